@@ -82,14 +82,12 @@ type Knobs struct {
 
 var allActions = "allocate, consolidation, reclaim, preempt, stalegangeviction"
 
-// draAccounting: share of C13/C14 cases with ResourceClaims. Kept at 0 on the main line until the reports that remain
-// after the four DRA repairs (fix commits 8f34fd2, 1b14f2a, 244f842, 8830d00) are triaged; VERIF_DRA_ACCOUNTING=1
-// switches it on for that work.
+// draAccounting: share of C13/C14 cases with ResourceClaims (VERIF_DRA_ACCOUNTING=0 switches them off).
 var draAccounting = func() float64 {
-	if os.Getenv("VERIF_DRA_ACCOUNTING") != "" {
-		return 0.35
+	if os.Getenv("VERIF_DRA_ACCOUNTING") == "0" {
+		return 0
 	}
-	return 0
+	return 0.35
 }()
 
 func Base() Knobs {
